@@ -16,6 +16,13 @@
 // <run>   = <file>/<file>/...      <file> = run,t0,t1,ext:<ev>;<ev>;...   (ext `-` = no extension)
 // <ev>    = id.kind.vs.serial.ts.in.drift.sd.pulser.out     (decimal; kind = one letter, see `banks`;
 //           vs = two flags: decodable by vertices / by scalers, see `decodable`)
+//           kind `w` (full simulated wire + pad data, see c19_sim.rs) has three more fields: .seed.ntracks.x_y_z
+//           seed (hex) and ntracks rebuild the banks; x_y_z = the vertex columns the library returns in-process
+//           for these banks (`vertex()`; 16 hex digits each = f64 bits, or `-_-_-` for no vertex).  The model
+//           carries them as the opaque payload of the row, so that the row of the real binary must show exactly
+//           these three numbers (printed decimal -> same f64 bits), in this order, on the row of this event.
+#[path = "c19_sim.rs"]
+mod sim;
 use crate::util::*;
 use alpha_g_detector::trigger::TrgPacket;
 use alpha_g_physics::MainEvent;
@@ -38,6 +45,19 @@ pub struct Ev {
     pub sd: u32,
     pub pulser: u32,
     pub out: u32,
+    /// kind `w` only
+    pub sim: Option<Sim>,
+}
+
+/// a simulated-like event with wire and pad data: how to rebuild it, and what the library makes of it
+#[derive(Clone, Debug, PartialEq)]
+pub struct Sim {
+    pub seed: u64,
+    pub nt: u32,
+    /// MainEvent::try_from_banks = Ok (in-process)
+    pub dec: bool,
+    /// bits of vertex().{x,y,z} (in-process)
+    pub vtx: Option<[u64; 3]>,
 }
 
 #[derive(Clone, Debug, PartialEq)]
@@ -61,20 +81,15 @@ pub fn show_run(fs: &[FileD]) -> String {
                 .map(|e| {
                     // the two flags say whether the vertices / the scalers binary can decode the event:
                     // they follow from the kind by construction (see `banks`) and are what the model reads
-                    format!(
+                    let (dv, ds) = decodable(e);
+                    let base = format!(
                         "{}.{}.{}{}.{}.{}.{}.{}.{}.{}.{}",
-                        e.id,
-                        e.kind,
-                        decodable(e.kind).0 as u8,
-                        decodable(e.kind).1 as u8,
-                        e.serial,
-                        e.ts,
-                        e.inp,
-                        e.drift,
-                        e.sd,
-                        e.pulser,
-                        e.out
-                    )
+                        e.id, e.kind, dv as u8, ds as u8, e.serial, e.ts, e.inp, e.drift, e.sd, e.pulser, e.out
+                    );
+                    match &e.sim {
+                        Some(m) => format!("{base}.{:x}.{}.{}", m.seed, m.nt, show_vtx(&m.vtx)),
+                        None => base,
+                    }
                 })
                 .collect();
             let ext = if f.ext.is_empty() { "-" } else { &f.ext };
@@ -95,12 +110,26 @@ pub fn parse_run(s: &str) -> Option<Vec<FileD>> {
         let mut v = Vec::new();
         for e in evs.split(';').filter(|x| !x.is_empty()) {
             let p: Vec<&str> = e.split('.').collect();
-            if p.len() != 10 {
+            if p.len() != 10 && p.len() != 13 {
                 return None;
             }
+            let kind = p[1].chars().next()?;
+            if (kind == 'w') != (p.len() == 13) {
+                return None;
+            }
+            let sim = if p.len() == 13 {
+                Some(Sim {
+                    seed: u64::from_str_radix(p[10], 16).ok()?,
+                    nt: p[11].parse().ok()?,
+                    dec: p[2].starts_with('1'),
+                    vtx: parse_vtx(p[12])?,
+                })
+            } else {
+                None
+            };
             v.push(Ev {
                 id: p[0].parse().ok()?,
-                kind: p[1].chars().next()?,
+                kind,
                 serial: p[3].parse().ok()?,
                 ts: p[4].parse().ok()?,
                 inp: p[5].parse().ok()?,
@@ -108,6 +137,7 @@ pub fn parse_run(s: &str) -> Option<Vec<FileD>> {
                 sd: p[7].parse().ok()?,
                 pulser: p[8].parse().ok()?,
                 out: p[9].parse().ok()?,
+                sim,
             });
         }
         out.push(FileD {
@@ -119,6 +149,27 @@ pub fn parse_run(s: &str) -> Option<Vec<FileD>> {
         });
     }
     Some(out)
+}
+
+fn show_vtx(v: &Option<[u64; 3]>) -> String {
+    match v {
+        Some(b) => format!("{:016x}_{:016x}_{:016x}", b[0], b[1], b[2]),
+        None => "-_-_-".to_string(),
+    }
+}
+fn parse_vtx(s: &str) -> Option<Option<[u64; 3]>> {
+    if s == "-_-_-" {
+        return Some(None);
+    }
+    let c: Vec<&str> = s.split('_').collect();
+    if c.len() != 3 || c.iter().any(|x| x.len() != 16) {
+        return None;
+    }
+    Some(Some([
+        u64::from_str_radix(c[0], 16).ok()?,
+        u64::from_str_radix(c[1], 16).ok()?,
+        u64::from_str_radix(c[2], 16).ok()?,
+    ]))
 }
 
 fn show_perm(p: &[usize]) -> String {
@@ -173,15 +224,25 @@ fn words_bytes(w: &[u32]) -> Vec<u8> {
 ///   b  only a `CBF1` bank
 /// (decodable by alpha-g-vertices, decodable by alpha-g-trg-scalers) for an event built by `banks`:
 /// vertices needs every bank name known and exactly one valid TRG bank; scalers looks at `ATAT` banks only
-pub fn decodable(kind: char) -> (bool, bool) {
-    match kind {
+///   w  wire (ADC v3) and pad (PWB chunks) banks of a simulated-like event + valid TRG, shuffled (c19_sim.rs)
+pub fn decodable(e: &Ev) -> (bool, bool) {
+    match e.kind {
         'g' | 'j' | 'J' => (true, true),
+        // whether the library accepts the wire and pad banks is measured in-process when the event is generated
+        'w' => (e.sim.as_ref().map_or(false, |m| m.dec), true),
         'u' | 'a' => (false, true),
         _ => (false, false),
     }
 }
 
-pub fn banks(e: &Ev) -> Vec<(&'static str, Vec<u8>)> {
+pub fn banks(run: u32, e: &Ev) -> Vec<(String, Vec<u8>)> {
+    if e.kind == 'w' {
+        return sim_event_banks(run, e);
+    }
+    banks_plain(e).into_iter().map(|(n, d)| (n.to_string(), d)).collect()
+}
+
+fn banks_plain(e: &Ev) -> Vec<(&'static str, Vec<u8>)> {
     let good = words_bytes(&trg_words(e));
     let junk = |n: usize| -> Vec<u8> { (0..n).map(|i| (i as u8).wrapping_mul(37).wrapping_add(e.serial as u8)).collect() };
     match e.kind {
@@ -210,11 +271,95 @@ pub fn banks(e: &Ev) -> Vec<(&'static str, Vec<u8>)> {
     }
 }
 
-fn event_bytes(e: &Ev, unix: u32) -> Vec<u8> {
+// ---------------------------------------------------------------------------------------------
+// kind `w`: simulated-like events with wire and pad data
+// ---------------------------------------------------------------------------------------------
+/// run numbers for which the maps and the calibration exist and the simulated-like events reconstruct
+pub const SIM_RUNS: [u32; 2] = [u32::MAX, 11192];
+const SIM_NOISE: i64 = 3;
+
+fn with_geometry<T>(run: u32, f: impl FnOnce(&sim::World, &sim::Geometry) -> T) -> T {
+    use std::collections::HashMap;
+    use std::sync::{Mutex, OnceLock};
+    static WORLD: OnceLock<sim::World> = OnceLock::new();
+    static GEO: OnceLock<Mutex<HashMap<u32, std::sync::Arc<sim::Geometry>>>> = OnceLock::new();
+    let w = WORLD.get_or_init(sim::world);
+    let g = {
+        let mut m = GEO.get_or_init(|| Mutex::new(HashMap::new())).lock().unwrap();
+        m.entry(run).or_insert_with(|| std::sync::Arc::new(sim::geometry(w, run))).clone()
+    };
+    f(w, &g)
+}
+
+/// the banks of a `w` event, rebuilt from (run, seed, ntracks) and the TRG fields: wire and pad banks, the
+/// TRG bank of the event, in an order shuffled as a MIDAS event may deliver it
+fn sim_event_banks(run: u32, e: &Ev) -> Vec<(String, Vec<u8>)> {
+    let Some(m) = &e.sim else { return vec![] };
+    let mut r = Rng::new(m.seed);
+    let mut bs: Vec<(String, Vec<u8>)> =
+        with_geometry(run, |w, g| sim::sim_banks(w, g, &mut r, run, m.nt as usize, SIM_NOISE))
+            .into_iter()
+            .map(|b| (b.name, b.data))
+            .collect();
+    bs.push(("ATAT".to_string(), words_bytes(&trg_words(e))));
+    for i in (1..bs.len()).rev() {
+        let j = r.below(i as u64 + 1) as usize;
+        bs.swap(i, j);
+    }
+    bs
+}
+
+/// what the library makes of a main event in this process: None = try_from_banks fails, otherwise the
+/// timestamp and the bits of vertex().  Cached for `w` events (reconstruction costs 50..200 ms).
+fn lib_vertex(run: u32, e: &Ev) -> Option<(u32, Option<[u64; 3]>)> {
+    use std::collections::HashMap;
+    use std::sync::{Mutex, OnceLock};
+    type Key = (u32, u64, u32, u32);
+    static CACHE: OnceLock<Mutex<HashMap<Key, Option<(u32, Option<[u64; 3]>)>>>> = OnceLock::new();
+    let key = e.sim.as_ref().map(|m| (run, m.seed, m.nt, e.ts));
+    if let Some(k) = &key {
+        if let Some(v) = CACHE.get_or_init(|| Mutex::new(HashMap::new())).lock().unwrap().get(k) {
+            return *v;
+        }
+    }
+    let bs = banks(run, e);
+    let v = match MainEvent::try_from_banks(run, bs.iter().map(|(n, d)| (&n[..], &d[..]))) {
+        Ok(m) => Some((m.timestamp(), m.vertex().map(|p| [p.x.value.to_bits(), p.y.value.to_bits(), p.z.value.to_bits()]))),
+        Err(_) => None,
+    };
+    if let Some(k) = key {
+        CACHE.get_or_init(|| Mutex::new(HashMap::new())).lock().unwrap().insert(k, v);
+    }
+    v
+}
+
+/// a `w` event with the in-process result of the library filled in
+fn sim_ev(run: u32, serial: u32, ts: u32, c: [u32; 5], seed: u64, nt: u32) -> Ev {
+    let mut e = Ev {
+        id: 1,
+        kind: 'w',
+        serial,
+        ts,
+        inp: c[0],
+        drift: c[1],
+        sd: c[2],
+        pulser: c[3],
+        out: c[4],
+        sim: Some(Sim { seed, nt, dec: false, vtx: None }),
+    };
+    let v = lib_vertex(run, &e);
+    e.sim = Some(Sim { seed, nt, dec: v.is_some(), vtx: v.and_then(|x| x.1) });
+    e
+}
+
+fn event_bytes(run: u32, e: &Ev, unix: u32) -> Vec<u8> {
     let mut body = Vec::new();
-    for (name, data) in banks(e) {
+    for (name, data) in banks(run, e) {
         body.extend_from_slice(name.as_bytes());
-        body.extend_from_slice(&6u32.to_le_bytes());
+        // data type 6 = u32 words; packets whose length is not a multiple of 4 are byte banks (type 1), because
+        // midasio wants the data length to be a multiple of the item size
+        let ty: u32 = if data.len() % 4 == 0 { 6 } else { 1 };
+        body.extend_from_slice(&ty.to_le_bytes());
         body.extend_from_slice(&(data.len() as u32).to_le_bytes());
         body.extend_from_slice(&data);
         // midasio pads the DATA area of a bank to a multiple of 8 bytes (the 12-byte header is not counted)
@@ -244,7 +389,7 @@ pub fn midas_bytes(f: &FileD) -> Vec<u8> {
     v.extend_from_slice(&(bor.len() as u32).to_le_bytes());
     v.extend_from_slice(bor);
     for e in &f.evs {
-        v.extend_from_slice(&event_bytes(e, f.t0));
+        v.extend_from_slice(&event_bytes(f.run, e, f.t0));
     }
     // the final dump is shorter than 8 bytes so that the end-of-run header can never parse as an event
     let eor = b"eor";
@@ -469,24 +614,13 @@ fn library_rows(fs: &[FileD], perm: &[usize]) -> (String, String) {
     let mut s_items = Vec::new();
     for f in sorted {
         for e in f.evs.iter().filter(|e| e.id == 1) {
-            let bs = banks(e);
-            let v = match MainEvent::try_from_banks(run, bs.iter().map(|(n, d)| (*n, &d[..]))) {
-                Ok(m) => {
-                    let vx = m.vertex();
-                    let col = |x: Option<f64>| x.map_or("-".to_string(), |x| format!("{:016x}", x.to_bits()));
-                    Some((
-                        m.timestamp(),
-                        vec![
-                            col(vx.map(|p| p.x.value)),
-                            col(vx.map(|p| p.y.value)),
-                            col(vx.map(|p| p.z.value)),
-                        ],
-                    ))
-                }
-                Err(_) => None,
-            };
+            let bs = banks(run, e);
+            let v = lib_vertex(run, e).map(|(ts, vx)| {
+                let col = |i: usize| vx.map_or("-".to_string(), |b| format!("{:016x}", b[i]));
+                (ts, vec![col(0), col(1), col(2)])
+            });
             v_items.push((e.serial, v));
-            let trg: Vec<&(&str, Vec<u8>)> = bs.iter().filter(|(n, _)| *n == "ATAT").collect();
+            let trg: Vec<&(String, Vec<u8>)> = bs.iter().filter(|(n, _)| n == "ATAT").collect();
             let s = if trg.len() == 1 {
                 TrgPacket::try_from(&trg[0].1[..]).ok().map(|p| {
                     let o = |x: Option<u32>| x.map_or("-".to_string(), |x| x.to_string());
@@ -714,7 +848,7 @@ fn gen_event(r: &mut Rng, clock: &mut Clock, serial: &mut u32, force: Option<cha
     let s = if r.chance(1, 12) { r.pick(&[0u32, 1, u32::MAX, u32::MAX - 1, 0x8000_0000]) } else { *serial };
     *serial = serial.wrapping_add(1 + r.below(2) as u32);
     let ts = if id == 1 { clock.next(r) } else { r.next() as u32 };
-    Ev { id, kind, serial: s, ts, inp: c[3], drift: c[2], sd: c[1], pulser: r.boundary(u32::MAX as u64) as u32, out: c[0] }
+    Ev { id, kind, serial: s, ts, inp: c[3], drift: c[2], sd: c[1], pulser: r.boundary(u32::MAX as u64) as u32, out: c[0], sim: None }
 }
 
 /// a run of `nf` contiguous files (initial timestamps distinct, final = next initial or next initial - 1)
@@ -776,6 +910,77 @@ fn gen_run(r: &mut Rng, nf: usize, variant: u64) -> Vec<FileD> {
     fs
 }
 
+/// a run like those of `gen_run` (timestamp regimes, undecodable events by plan, other event types, both
+/// extensions) on a run number with maps and calibration, in which `n_w` of the decodable main events carry
+/// full simulated-like wire and pad data (kind `w`), some of them next to each other.  Up to four seeds are
+/// tried per event to get the wanted outcome (vertex / no vertex).
+fn gen_run_sim(r: &mut Rng, nf: usize, variant: u64, n_w: usize) -> Vec<FileD> {
+    let mut fs = gen_run(r, nf, variant);
+    let run = if variant % 3 == 2 { SIM_RUNS[1] } else { SIM_RUNS[0] };
+    for f in fs.iter_mut() {
+        f.run = run;
+        // keep the files short: every invocation of the binary reconstructs every `w` event again
+        f.evs.truncate(20);
+    }
+    let good = |e: &Ev| e.id == 1 && KINDS_OK.contains(&e.kind);
+    let mut pos: Vec<(usize, usize)> = Vec::new();
+    for (i, f) in fs.iter().enumerate() {
+        for (k, e) in f.evs.iter().enumerate() {
+            if good(e) {
+                pos.push((i, k));
+            }
+        }
+    }
+    let mut serial = 5000u32;
+    while pos.len() < n_w {
+        let i = r.below(nf as u64) as usize;
+        let mut clock = Clock { mode: 2, ts: r.next() as u32 };
+        let e = gen_event(r, &mut clock, &mut serial, Some('g'));
+        fs[i].evs.push(e);
+        pos.push((i, fs[i].evs.len() - 1));
+    }
+    pos.sort();
+    // a random start, then alternately the next position (neighbours) and a jump
+    let mut chosen: Vec<(usize, usize)> = Vec::new();
+    let mut at = r.below(pos.len() as u64) as usize;
+    while chosen.len() < n_w {
+        if !chosen.contains(&pos[at]) {
+            chosen.push(pos[at]);
+        }
+        at = if chosen.len() % 2 == 1 { (at + 1) % pos.len() } else { r.below(pos.len() as u64) as usize };
+    }
+    for (i, k) in chosen {
+        let old = fs[i].evs[k].clone();
+        let c = [old.inp, old.drift, old.sd, old.pulser, old.out];
+        // wanted: a vertex (two in four), wire and pad data without a vertex (one in four: a single track),
+        // whatever comes (one in four)
+        let want = r.below(4);
+        let nt = |r: &mut Rng| match want {
+            0 => r.pick(&[11u32, 11, 1]),
+            1 | 2 => 12 + r.below(3) as u32,
+            _ => r.pick(&[1u32, 2, 3, 11, 12, 13, 14]),
+        };
+        let n = nt(r);
+        let mut e = sim_ev(run, old.serial, old.ts, c, r.next(), n);
+        for _ in 0..3 {
+            let has = e.sim.as_ref().map_or(false, |m| m.vtx.is_some());
+            if want == 3 || has == (want != 0) {
+                break;
+            }
+            let n = nt(r);
+            e = sim_ev(run, old.serial, old.ts, c, r.next(), n);
+        }
+        fs[i].evs[k] = e;
+    }
+    fs
+}
+
+/// (number of `w` events, number of them the library decodes, number of them with a vertex)
+fn sim_counts(fs: &[FileD]) -> (usize, usize, usize) {
+    let ms: Vec<&Sim> = fs.iter().flat_map(|f| f.evs.iter()).filter_map(|e| e.sim.as_ref()).collect();
+    (ms.len(), ms.iter().filter(|m| m.dec).count(), ms.iter().filter(|m| m.vtx.is_some()).count())
+}
+
 fn label_of(fs: &[FileD]) -> String {
     format!("run-{}-files", fs.len())
 }
@@ -807,7 +1012,7 @@ fn emit_run(s: &mut Sink, fs: &[FileD], perms: &[Vec<usize>], label: &str, with_
             s.put(
                 &format!("relc19t {} {}", show_perm(p), text),
                 &holds(bad.is_none(), format!("threads {}", bad.unwrap_or(0))),
-                &format!("rel-threads-{}", fs.len()),
+                &format!("rel-threads-{}{}", if label.starts_with("sim-") { "sim-" } else { "" }, fs.len()),
                 nontrivial,
             );
         }
@@ -818,7 +1023,7 @@ fn emit_run(s: &mut Sink, fs: &[FileD], perms: &[Vec<usize>], label: &str, with_
                 s.put(
                     &format!("relc19l {} {}", show_perm(p), text),
                     &holds(lv == ov && ls == os, format!("library V={lv} S={ls} csv V={ov} S={os}")),
-                    "rel-library",
+                    if label.starts_with("sim-") { "rel-library-sim" } else { "rel-library" },
                     nontrivial,
                 );
                 first = Some((v1, sv));
@@ -888,7 +1093,7 @@ pub fn run(tier: &str, seed: u64, s: &mut Sink) {
     let mut r = Rng::new(seed ^ 0xC19);
     let thorough = tier == "thorough";
     // fixed boundary runs first
-    let e = |id: u16, kind: char, serial: u32, ts: u32| Ev { id, kind, serial, ts, inp: 9, drift: 7, sd: 5, pulser: 3, out: 2 };
+    let e = |id: u16, kind: char, serial: u32, ts: u32| Ev { id, kind, serial, ts, inp: 9, drift: 7, sd: 5, pulser: 3, out: 2, sim: None };
     let f = |t0: u32, t1: u32, ext: &str, evs: Vec<Ev>| FileD { run: 9277, t0, t1, ext: ext.to_string(), evs };
     let fixed: Vec<Vec<FileD>> = vec![
         // the wrap of DESIGN.md A.11: 0xFFFFFF00 -> 0x100 is 0x200 ticks
@@ -942,6 +1147,27 @@ pub fn run(tier: &str, seed: u64, s: &mut Sink) {
             last_good.push(fs);
         }
     }
+    // runs in which some main events carry full wire and pad data that the library reconstructs to a vertex:
+    // (number of files, number of runs, number of such events per run)
+    let plan_sim: &[(usize, usize, usize)] =
+        if thorough { &[(1, 6, 12), (2, 5, 10), (3, 3, 6), (4, 1, 6)] } else { &[(1, 1, 10), (2, 1, 6), (3, 1, 5)] };
+    let (mut n_w, mut n_dec, mut n_vtx, mut n_rows) = (0, 0, 0, 0);
+    for &(nf, count, nw) in plan_sim {
+        for _ in 0..count {
+            variant += 1;
+            let fs = gen_run_sim(&mut r, nf, variant, nw);
+            let (a, b, c) = sim_counts(&fs);
+            let perms = permutations(nf);
+            n_w += a;
+            n_dec += b;
+            n_vtx += c;
+            n_rows += c * perms.len();
+            emit_run(s, &fs, &perms, &format!("sim-run-{nf}-files-{c}-of-{a}-with-vertex"), true);
+        }
+    }
+    eprintln!(
+        "c19: {n_w} events with wire and pad data, {n_dec} decoded, {n_vtx} with a vertex ({n_rows} CSV rows with vertex columns compared)"
+    );
     // refusals, derived from good runs of each size
     let picks: Vec<Vec<FileD>> = if thorough {
         last_good.clone()
